@@ -71,6 +71,27 @@ CLAIMED.update({
     },
 })
 
+CLAIMED.update({
+    "C07": {
+        "text": "Coq theorems about the real table builder (the accumulating fold of as_reply_data with find / excludes / merge), for every list of reply methods whose claims are compatible (any number of methods, any sharing of handler names, any declaration order): a fold invariant shows each entry holds exactly the methods claiming its name, so the method run on success is THE method declared for success or always under that name, on failure THE one declared for error or always, with gas used in the context, events and message responses only for a success method, error text / full result as declared; no method for the outcome = pass-through of events and data resp. that error; unknown id = error. Envelope parsers, JSON decoder and handlers are Section variables. Tie: L1 real expansions of generated tables vs the table model; L2 compiled echo contracts driven through sv::dispatch_reply and the reply entry point.",
+        "note": COMMON_NOTE + "Handler-name constants use convert_case's UPPER_SNAKE (modelled, validated at L1). cw_utils' protobuf parsing is a dependency (Section variable; exercised with real bytes at L2).",
+        "technique": "Coq proof (invariant of the table fold, refinement to a declarative grouping) + L1/L2 differential correspondence",
+        "design_ref": "DESIGN.md section 5 / C07",
+    },
+    "C08": {
+        "text": "Coq theorems: ids are positions in the table and entries have pairwise distinct id constants, so names with distinct constants get distinct ids and an id leads back to its own entry; the trigger is Always / Success / Error exactly according to which outcomes have a method (total decision lemma); the builder on an existing sub-message changes only id, trigger and payload (every other field, the gas limit included, and the message are kept), on wasm/cosmos messages it wraps the message with no gas limit; the payload encoded by the builder decodes to equal values for any JSON printer/parser pair that round-trips, a raw payload byte for byte. Tie: L1 builder facts; L2 every builder on the three receivers, then the eventual reply dispatched.",
+        "note": COMMON_NOTE + "Handler names whose UPPER_SNAKE images coincide (handler1 / handler_1) are outside the statement's hypothesis (distinct constants); see DESIGN section 6 (D6).",
+        "technique": "Coq proof (table positions, decision lemma, field-preservation, codec round trip) + L1/L2 differential correspondence",
+        "design_ref": "DESIGN.md section 5 / C08",
+    },
+    "C09": {
+        "text": "Coq theorems for arbitrary envelope parsers and JSON decoder (Section variables, hence arbitrary payload types): the decision table of the six data modes over data absent / envelope undecodable / inner data absent / JSON undecodable / present; a failing extraction makes dispatch return the error without any handler call, a successful one is exactly one call whose first argument is the extracted value; without a marker there is no data argument. Tie: L1 which extraction block each success arm carries; L2 real protobuf envelopes built and corrupted by the harness, echoed data parameter or error class and the handler's call log.",
+        "note": COMMON_NOTE + "`opt` with an envelope present but inner data absent is a missing-data error in the code and is stated so. cw_utils' parsers are dependencies.",
+        "technique": "Coq proof (decision table over abstract parsers) + L2 differential correspondence with crafted envelopes",
+        "design_ref": "DESIGN.md section 5 / C09",
+    },
+})
+
 NOT_YET = {}
 
 
